@@ -7,17 +7,23 @@ RULE = ("part ctl_cell: controlled schedules (real threads, one runnable at a ti
         "instance-counted; random, bursty and last-first schedules; thorough adds EVERY schedule of 2 waiters (all 15 kind pairs) x 1 resolver "
         "(7 kinds incl. none = destructor resolves), enumerated by the extracted model (cell_enum). part stress_cell: the same cell under real "
         "uncontrolled threads (3000 / 30000 trials per configuration, really blocking waiters), oracle = counters lost/dup/wrong/early all zero. "
+        "part seq_aw: RE-USED awaiter objects: op sequences (3-25 ops + 6% malformed) in which 2 hand-written awaiters (co_awaiter::subscribe + resume when refused) "
+        "and 2 call_fn_future_awaiters wait repeatedly on 3 external futures / their internal futures that are already resolved or pending, futures re-created "
+        "in between, promises called with value / exception / drop, plus the 2x2x2x2 matrix (style x resolved|pending for three consecutive waits); "
+        "non-trivial there = some awaiter object answered at least two waits. "
         "non-trivial = at least 3 thread switches in the executed trace; distinct = distinct (threads, schedule)")
 SCOPE = ("promise::claim/set_value/set_exception/drop/~promise/move ctor, future::set/resolve/value/has_value, awaiter::resume_chain_set_ready/"
          "resume_chain_lk/subscribe_check_ready, co_awaiter await_ready/await_suspend/await_resume/sync, sync_awaiter, awaitable_bool, "
-         "async::start(promise&)/async_promise::final_awaiter")
+         "async::start(promise&)/async_promise::final_awaiter, call_fn_future_awaiter::operator<<, co_awaiter::subscribe(awaiter*), future::operator<< / result_of")
 ASSUMPTIONS = ["the destructor of the shared promise object runs after every call on that object has returned (C++ object lifetime)",
                "interleaving at the granularity of the hook points (each atomic operation on promise::_owner / future::_awaiter is its own step); sequentially consistent",
                "sync_awaiter::wakeup (flag.store + flag.notify_all) and std::atomic::wait are one level-triggered step in the model; their real interplay is exercised only by the stress part",
                "a callback awaiter's context is freed inside its callback, a coroutine's awaiter dies when the coroutine resumes (harness scenario recorded as EFree events)"]
 def gen(seed, tier): return cellcommon.gen(seed, tier, "waiters")
 def gen_stress(seed, tier): return cellcommon.gen_stress(seed, tier)
+def gen_aw(seed, tier): return cellcommon.gen_aw(seed, tier)
 nontrivial = cellcommon.nontrivial
 signature = cellcommon.signature
 PARTS = [{"name": "ctl_cell", "harness": "ctl_cell.cpp", "gen": gen, "no_shrink": False, "timeout_case": 10},
+         {"name": "seq_aw", "harness": "seq_aw.cpp", "gen": gen_aw, "no_shrink": False, "timeout_case": 10},
          {"name": "stress_cell", "harness": "stress_cell.cpp", "gen": gen_stress, "no_shrink": True, "timeout_case": 30}]
